@@ -23,7 +23,8 @@ Definition cerr_eqb (a b : cerr) : bool :=
   | ETooManyCards x, ETooManyCards y | ERecursionLimitReached x, ERecursionLimitReached y => x =? y
   | EDuplicateName x, EDuplicateName y | EDuplicateModule x, EDuplicateModule y
   | EInvalidJump x, EInvalidJump y | EBadFunctionName x, EBadFunctionName y
-  | EBadImport x, EBadImport y | EAmbigousImport x, EAmbigousImport y => str_eqb x y
+  | EBadImport x, EBadImport y | EAmbigousImport x, EAmbigousImport y
+  | EBadVariableName x, EBadVariableName y => str_eqb x y
   | ESuperLimitReached, ESuperLimitReached | ETooManyUpvalues, ETooManyUpvalues => true
   | _, _ => false
   end.
